@@ -40,9 +40,9 @@ def gen_callbacks(r, typ):
         k = r.choice(kinds)
         period = r.choice([1, 1, 2, 2, 3, 4, 5])
         if k == "metric":
-            out.append({"kind": "metric", "period": period, "log": r.random() < 0.6, "two": r.random() < 0.5, "verbose": r.random() < 0.2, "names": r.choice([["alpha", "beta"], ["alpha", "beta"], ["period", "log"], ["names", "metrics"], ["m 1", "m-2"], ["overlap", "overlaps"], ["losss", "loss"]])})
+            out.append({"kind": "metric", "period": period, "log": r.random() < 0.6, "two": r.random() < 0.5, "verbose": r.random() < 0.2, "names": r.choice([["alpha", "beta"], ["alpha", "beta"], ["period", "log"], ["names", "metrics"], ["m 1", "m-2"], ["overlap", "overlaps"], ["losss", "loss"], ["_wnorm", "__x"]])})
         elif k == "observable":
-            out.append({"kind": "observable", "period": period, "log": r.random() < 0.6, "obs": r.choice([["Z"], ["user"], ["Z", "user"], ["X"]]), "num_samples": r.choice([2, 4, 5]), "num_chains": r.choice([0, 2]), "verbose": r.random() < 0.2})
+            out.append({"kind": "observable", "period": period, "log": r.random() < 0.6, "obs": r.choice([["Z"], ["user"], ["Z", "user"], ["X"], ["_user"]]), "num_samples": r.choice([2, 4, 5]), "num_chains": r.choice([0, 2]), "verbose": r.random() < 0.2})
         elif k == "logger":
             out.append({"kind": "logger", "period": period, "custom_msg": r.random() < 0.5, "blank_msgs": r.random() < 0.4})
         else:
@@ -65,7 +65,7 @@ def generate(seed, tier):
     r = P.rng_for(seed)
     scfg = P.gen_state_cfg(r, type_weights=(2, 1, 1), max_nv=3, max_nh=2, max_na=2, scales=(0.1, 1.0), custom_p=0.2)
     dcfg = P.gen_data_cfg(r, scfg, max_N=4, forms=("tensor",), min_N=2)
-    se = r.choice([1, 1, 1, 2, 4])
+    se = r.choice([1, 1, 1, 2, 4, 0])  # epoch numbering may start at 0
     span = r.randint(1, 8 if tier == "thorough" else 6)
     runs = [{"starting_epoch": se, "epochs": se + span - 1}]
     if r.random() < 0.4:
@@ -177,7 +177,13 @@ def execute(plan):
                     rec["applied"] = []
                     obs = []
                     for nm in spec["obs"]:
-                        obs.append({"Z": SigmaZ, "X": SigmaX}[nm]() if nm != "user" else UserObs(rec["applied"]))
+                        if nm in ("user", "_user"):
+                            uo = UserObs(rec["applied"])
+                            if nm == "_user":
+                                uo.name = "_mag"
+                            obs.append(uo)
+                        else:
+                            obs.append({"Z": SigmaZ, "X": SigmaX}[nm]())
                     rec["log"] = f"/logs/obs{i}.csv" if spec.get("log") else None
                     cb = ObservableEvaluator(spec["period"], obs, verbose=spec.get("verbose", False), log=rec["log"], num_samples=spec["num_samples"], num_chains=spec["num_chains"], burn_in=1, steps=1)
                     rec["names"] = [o.name for o in obs]
